@@ -199,8 +199,19 @@ pub fn parse_create_table(
     // "CREATE TABLE x COPY GRANTS (c INT)" and "CREATE TABLE x (c INT) COPY GRANTS" are both
     // accepted by Snowflake
 
+    // every option may be given once: a repeated option would silently replace the first
+    let mut seen: Vec<Keyword> = vec![];
+    let mut seen_columns = false;
     loop {
         let next_token = parser.next_token();
+        if let Token::Word(word) = &next_token.token {
+            if word.keyword != Keyword::WITH {
+                if seen.contains(&word.keyword) {
+                    return parser.expected("each table option at most once", next_token);
+                }
+                seen.push(word.keyword);
+            }
+        }
         match &next_token.token {
             Token::Word(word) => match word.keyword {
                 Keyword::COPY => {
@@ -323,6 +334,10 @@ pub fn parse_create_table(
                 }
             },
             Token::LParen => {
+                if seen_columns {
+                    return parser.expected("one column list", next_token);
+                }
+                seen_columns = true;
                 parser.prev_token();
                 let (columns, constraints) = parser.parse_columns()?;
                 builder = builder.columns(columns).constraints(constraints);
